@@ -7,6 +7,7 @@
 (* of the real manager is judged by ClusterMon.tla.                        *)
 (***************************************************************************)
 EXTENDS Integers, FiniteSets, Sequences, TLC
+SX == INSTANCE SequencesExt
 
 CONSTANTS Reqs,        \* request ids
           Procs,       \* [Reqs -> 1..mp]
@@ -50,21 +51,18 @@ After(needv, healthv, nst) ==
 (* schedule(): first-fit-decreasing with reservation.  ReqOrder / MachOrder are any
    linearisations consistent with the heaps' orders. *)
 ReqBefore(a, b) == Prio[a] < Prio[b] \/ (Prio[a] = Prio[b] /\ Procs[a] > Procs[b])
-\* the linearisations the two heaps allow: any order that respects ReqBefore / decreasing free procs
-\* (ties in any order), built by repeatedly taking a minimal element
-RECURSIVE ReqOrders(_)
-ReqOrders(S) == IF S = {} THEN {<<>>}
-                ELSE UNION {{<<x>> \o p : p \in ReqOrders(S \ {x})} : x \in {y \in S : \A z \in S : ~ReqBefore(z, y)}}
-RECURSIVE MachOrders(_)
-MachOrders(S) == IF S = {} THEN {<<>>}
-                 ELSE UNION {{<<x>> \o p : p \in MachOrders(S \ {x})} : x \in {y \in S : \A z \in S : Free(y) >= Free(z)}}
-
-RECURSIVE Pick(_,_,_)
-Pick(rs, ms, i) ==   \* returns <<r, m>> or <<>>
-  IF i > Len(rs) \/ i > Len(ms) THEN <<>>
-  ELSE IF Free(ms[i]) = 0 THEN <<>>
-  ELSE IF Procs[rs[i]] <= Free(ms[i]) THEN <<rs[i], ms[i]>>
-  ELSE Pick(rs, ms, i+1)
+\* The two heaps allow any linearisation that respects ReqBefore / decreasing free procs, ties in any order.
+\* The walk of schedule() looks only at the keys (priority, procs; free procs) at each position, and in every
+\* such linearisation position i holds a request / machine with the i'th key of the sorted multiset; so the
+\* possible results are: any request and any machine whose keys are those at the position where the walk stops.
+SortedReqs == SX!SortSeq(SX!SetToSeq(q), ReqBefore)
+SortedMachs == SX!SortSeq(SX!SetToSeq(Ok), LAMBDA a, b : Free(a) > Free(b))
+RECURSIVE PickIdx(_,_,_)
+PickIdx(rs, ms, i) ==   \* the position at which schedule() stops with a pair, or 0
+  IF i > Len(rs) \/ i > Len(ms) THEN 0
+  ELSE IF Free(ms[i]) = 0 THEN 0
+  ELSE IF Procs[rs[i]] <= Free(ms[i]) THEN i
+  ELSE PickIdx(rs, ms, i+1)
 
 Init == /\ q = {} /\ granted = [r \in Reqs |-> 0] /\ health = [m \in Mach |-> "none"]
         /\ load = [m \in Mach |-> 0] /\ need = 0 /\ pending = 0 /\ batches = <<>>
@@ -85,14 +83,15 @@ Cancel(r) == /\ r \in q
              /\ After(need - Procs[r], health, nstarted)
              /\ UNCHANGED <<granted, health, load, nstarted, offered, stops>>
 
-Grant == \E rs \in ReqOrders(q), ms \in MachOrders(Ok) :
-            /\ LET p == Pick(rs, ms, 1) IN
-               /\ p # <<>>
-               /\ q' = q \ {p[1]}
-               /\ granted' = [granted EXCEPT ![p[1]] = p[2]]
-               /\ load' = [load EXCEPT ![p[2]] = @ + Procs[p[1]]]
-            /\ After(need, health, nstarted)
-            /\ UNCHANGED <<health, need, nstarted, offered, finished, stops>>
+Grant == LET rs == SortedReqs  ms == SortedMachs  k == PickIdx(rs, ms, 1) IN
+         /\ k # 0
+         /\ \E r \in q, m \in Ok :
+              /\ Prio[r] = Prio[rs[k]] /\ Procs[r] = Procs[rs[k]] /\ Free(m) = Free(ms[k])
+              /\ q' = q \ {r}
+              /\ granted' = [granted EXCEPT ![r] = m]
+              /\ load' = [load EXCEPT ![m] = @ + Procs[r]]
+         /\ After(need, health, nstarted)
+         /\ UNCHANGED <<health, need, nstarted, offered, finished, stops>>
 
 Done(r, ek) ==   \* ek \in {"nil","remote","transport"}
   /\ granted[r] # 0 /\ r \notin finished
